@@ -60,6 +60,23 @@ namespace bloch::runtime {
         return v.type == Value::Type::Object && !v.objectValue;
     }
 
+    // Documented widening: an int stored into a long slot becomes a long. Without this the slot
+    // keeps the int representation and later arithmetic on it is carried out in 32 bits.
+    static Value widenToSlot(Value v, Value::Type slotKind) {
+        if (slotKind == Value::Type::Long && v.type == Value::Type::Int) {
+            v.type = Value::Type::Long;
+            v.longValue = v.intValue;
+        }
+        return v;
+    }
+    static Value::Type declaredKind(Type* t) {
+        if (auto prim = dynamic_cast<PrimitiveType*>(t)) {
+            if (prim->name == "long")
+                return Value::Type::Long;
+        }
+        return Value::Type::Void;
+    }
+
     static std::string valueToString(const Value& v) {
         // Pretty-print a runtime value for echo and tracked summaries.
         std::ostringstream oss;
@@ -627,7 +644,7 @@ namespace bloch::runtime {
         for (auto it = m_env.rbegin(); it != m_env.rend(); ++it) {
             auto fit = it->find(name);
             if (fit != it->end()) {
-                Value newVal = v;
+                Value newVal = widenToSlot(v, fit->second.value.type);
                 if (fit->second.value.type == Value::Type::Object &&
                     newVal.type == Value::Type::Object && newVal.objectValue &&
                     !fit->second.value.className.empty()) {
@@ -643,7 +660,7 @@ namespace bloch::runtime {
             if (!m_inStaticContext && thisObj) {
                 RuntimeField* field = findInstanceField(m_currentClassCtx, name);
                 if (field && field->offset < thisObj->fields.size()) {
-                    Value newVal = v;
+                    Value newVal = widenToSlot(v, field->type.kind);
                     const Value& existing = thisObj->fields[field->offset];
                     if (existing.type == Value::Type::Object &&
                         newVal.type == Value::Type::Object && newVal.objectValue &&
@@ -656,7 +673,7 @@ namespace bloch::runtime {
             }
             auto [field, owner] = findStaticFieldWithOwner(m_currentClassCtx, name);
             if (field && owner && field->offset < owner->staticStorage.size()) {
-                Value newVal = v;
+                Value newVal = widenToSlot(v, field->type.kind);
                 const Value& existing = owner->staticStorage[field->offset];
                 if (existing.type == Value::Type::Object && newVal.type == Value::Type::Object &&
                     newVal.objectValue && !existing.className.empty()) {
@@ -1197,7 +1214,7 @@ namespace bloch::runtime {
             m_currentClassCtx = cls;
             slot = defaultValueForField(field, cls->name);
             if (field.hasInitializer && field.initializer) {
-                slot = eval(field.initializer);
+                slot = widenToSlot(eval(field.initializer), field.type.kind);
             }
             m_inStaticContext = prevStatic;
             m_currentClassCtx = prevClass;
@@ -1398,7 +1415,7 @@ namespace bloch::runtime {
                 thisVal.objectValue = obj;
                 thisVal.className = cls->name;
                 m_env.back()["this"] = {thisVal, false, true};
-                Value init = eval(field.initializer);
+                Value init = widenToSlot(eval(field.initializer), field.type.kind);
                 slot = init;
                 endScope();
                 m_currentClassCtx = prevClass;
@@ -1437,7 +1454,8 @@ namespace bloch::runtime {
         thisVal.className = cls->name;
         m_env.back()["this"] = {thisVal, false, true};
         for (size_t i = 0; ctor && i < ctor->params.size() && i < args.size(); ++i) {
-            m_env.back()[ctor->params[i]->name] = {args[i], false, true};
+            m_env.back()[ctor->params[i]->name] = {
+                widenToSlot(args[i], declaredKind(ctor->params[i]->type.get())), false, true};
         }
 
         // Detect an explicit super(...) call as the first statement.
@@ -1524,7 +1542,7 @@ namespace bloch::runtime {
                 const auto& param = ctor->params[i];
                 auto fieldMeta = findInstanceField(cls, param->name);
                 if (fieldMeta && fieldMeta->offset < obj->fields.size()) {
-                    obj->fields[fieldMeta->offset] = args[i];
+                    obj->fields[fieldMeta->offset] = widenToSlot(args[i], fieldMeta->type.kind);
                 }
             }
         }
@@ -1576,7 +1594,9 @@ namespace bloch::runtime {
         }
         m_returnValue = {};
         for (size_t i = 0; i < method->decl->params.size() && i < args.size(); ++i) {
-            m_env.back()[method->decl->params[i]->name] = {args[i], false, true};
+            m_env.back()[method->decl->params[i]->name] = {
+                widenToSlot(args[i], declaredKind(method->decl->params[i]->type.get())), false,
+                true};
         }
         bool prevReturn = m_hasReturn;
         m_hasReturn = false;
@@ -1587,7 +1607,7 @@ namespace bloch::runtime {
                     break;
             }
         }
-        Value ret = m_returnValue;
+        Value ret = widenToSlot(m_returnValue, declaredKind(method->decl->returnType.get()));
         endScope();
         m_hasReturn = prevReturn;
         m_currentClassCtx = prevClass;
@@ -1601,7 +1621,8 @@ namespace bloch::runtime {
         // Bind parameters, run the body until a return is hit, then unwind.
         beginScope();
         for (size_t i = 0; i < fn->params.size() && i < args.size(); ++i) {
-            m_env.back()[fn->params[i]->name] = {args[i], false, true};
+            m_env.back()[fn->params[i]->name] = {
+                widenToSlot(args[i], declaredKind(fn->params[i]->type.get())), false, true};
         }
         bool prevReturn = m_hasReturn;
         m_returnValue = {};
@@ -1613,7 +1634,7 @@ namespace bloch::runtime {
                     break;
             }
         }
-        Value ret = m_returnValue;
+        Value ret = widenToSlot(m_returnValue, declaredKind(fn->returnType.get()));
         endScope();
         m_hasReturn = prevReturn;
         return ret;
@@ -1855,7 +1876,8 @@ namespace bloch::runtime {
                     initialized = true;
                 }
             }
-            m_env.back()[var->name] = {v, var->isTracked, initialized};
+            m_env.back()[var->name] = {widenToSlot(v, declaredKind(var->varType.get())),
+                                       var->isTracked, initialized};
         } else if (auto block = dynamic_cast<BlockStatement*>(s)) {
             beginScope();
             for (auto& st : block->statements) {
@@ -2969,19 +2991,21 @@ namespace bloch::runtime {
                         : nullptr;
                 if (instField) {
                     if (instField->offset < obj.objectValue->fields.size())
-                        obj.objectValue->fields[instField->offset] = rhs;
+                        obj.objectValue->fields[instField->offset] =
+                            widenToSlot(rhs, instField->type.kind);
                 } else {
                     auto [staticField, owner] =
                         obj.objectValue->cls
                             ? findStaticFieldWithOwner(obj.objectValue->cls, memAssign->member)
                             : std::pair<RuntimeField*, RuntimeClass*>{nullptr, nullptr};
                     if (staticField && owner && staticField->offset < owner->staticStorage.size())
-                        owner->staticStorage[staticField->offset] = rhs;
+                        owner->staticStorage[staticField->offset] =
+                            widenToSlot(rhs, staticField->type.kind);
                 }
             } else if (obj.type == Value::Type::ClassRef && obj.classRef) {
                 auto [field, owner] = findStaticFieldWithOwner(obj.classRef, memAssign->member);
                 if (field && owner && field->offset < owner->staticStorage.size())
-                    owner->staticStorage[field->offset] = rhs;
+                    owner->staticStorage[field->offset] = widenToSlot(rhs, field->type.kind);
             }
             return rhs;
         } else if (auto aassign = dynamic_cast<ArrayAssignmentExpression*>(e)) {
